@@ -35,3 +35,74 @@ func init() {
 		DesignRef:   "DESIGN.md §6 authz family",
 	})
 }
+
+func sc2(base map[string]int, kv ...interface{}) map[string]int {
+	m := map[string]int{}
+	for k, v := range base {
+		m[k] = v
+	}
+	for i := 0; i+1 < len(kv); i += 2 {
+		m[kv[i].(string)] = kv[i+1].(int)
+	}
+	return m
+}
+
+func init() {
+	relModels := []string{modelSig, modelCodec, modelCtx}
+	checks = append(checks, &CheckSpec{
+		Prop:    "C02",
+		Harness: []string{"c01_chain.go", "c16_keyid.go", "authz_gen.go", "c04_authz.go", "authz_rel.go"},
+		Entries: []EntrySpec{
+			{Pkg: "biscuit", Func: "VerifC02Attenuation",
+				Quick:    sc2(sc("authFacts", 1, "authCheck", 1), "newFacts", 1, "newRule", 2, "newCheck", 1),
+				Thorough: sc2(sc("authFacts", 1, "authRule", 1, "authCheck", 1, "azFacts", 1, "azCheck", 1), "newFacts", 1, "newRule", 2, "newCheck", 2),
+				Covers:   []string{"child-allowed", "child-refused"}},
+			{Pkg: "biscuit", Func: "VerifC02Attenuation",
+				Quick:    sc2(sc("authFacts", 1, "azCheck", 1, "policies", 2), "newFacts", 2, "newRule", 0, "newCheck", 0),
+				Thorough: sc2(sc("authFacts", 1, "blocks", 1, "blkFacts", 1, "blkCheck", 1, "azCheck", 1, "policies", 2), "newFacts", 1, "newRule", 2, "newCheck", 1),
+				Covers:   []string{"child-allowed", "child-refused"}},
+		},
+		Assumptions: authzAssume, Models: relModels,
+		Explanation: "two symbolic executions of Authorize share all symbolic content: token T extended with block B versus T; the solver searches for content where the child is authorized and the parent is not",
+		LevelText:   "Bounded symbolic relational model checking: for every appended block within the scenario families (facts, any rule template, any check template, colliding names/constants chosen by the solver) and every authorizer content of the family, Authorize(T+B)=nil implies Authorize(T)=nil.",
+		LevelNote:   "Scenario families and unary fragment as listed in evidence.", DesignRef: "DESIGN.md §6 authz family",
+	})
+	checks = append(checks, &CheckSpec{
+		Prop:    "C03",
+		Harness: []string{"c01_chain.go", "c16_keyid.go", "authz_gen.go", "c04_authz.go", "authz_rel.go"},
+		Entries: []EntrySpec{
+			{Pkg: "biscuit", Func: "VerifC03Scoping",
+				Quick:    sc2(sc("authFacts", 1, "blkCheck", 1), "xFacts", 1, "xRule", 2),
+				Thorough: sc2(sc("authFacts", 1, "authRule", 1, "authCheck", 1, "blkFacts", 1, "blkRule", 1, "blkCheck", 2, "azFacts", 1, "azCheck", 1), "xFacts", 2, "xRule", 2),
+				Covers:   []string{"compared"}},
+		},
+		Assumptions: authzAssume, Models: relModels,
+		Explanation: "Authorize and Query executed on a token with and without a facts-and-rules-only block X (inserted before or after another block that carries a check); outcomes and query result sets compared by the solver",
+		LevelText:   "Bounded symbolic relational model checking: with X's facts and rules symbolic (names colliding with authority/authorizer/other-block names at the solver's choice), the authorization outcome class and the authorizer's query results are identical with and without X, at both positions.",
+		LevelNote:   "Positive half (authority facts visible to every block) is covered by the C04 reference. Scenario families as listed.", DesignRef: "DESIGN.md §6 authz family",
+	})
+	checks = append(checks, &CheckSpec{
+		Prop:    "C13",
+		Harness: []string{"c01_chain.go", "c16_keyid.go", "authz_gen.go", "c04_authz.go", "authz_rel.go"},
+		Entries: []EntrySpec{
+			{Pkg: "biscuit", Func: "VerifC13Reset",
+				Quick:    sc2(sc("authFacts", 1), "az1Facts", 1, "az1Rule", 0, "az1Check", 0, "az2Facts", 0, "az2Rule", 0, "az2Check", 1),
+				Thorough: sc2(sc("authFacts", 1, "authRule", 1, "policies", 2), "az1Facts", 1, "az1Rule", 2, "az1Check", 1, "az2Facts", 1, "az2Rule", 1, "az2Check", 2),
+				Covers:   []string{"compared"}},
+		},
+		Assumptions: authzAssume, Models: relModels,
+		Explanation: "an authorizer is used for round 1 (authorize or query, any outcome), Reset, then round 2; a fresh authorizer gets round 2 only; outcomes and query results compared",
+		LevelText:   "Bounded symbolic relational model checking of Reset: for all round-1 and round-2 contents of the scenario family the reused authorizer and a fresh one agree on the outcome class and on query results.",
+		LevelNote:   "Two rounds; scenario families as listed.", DesignRef: "DESIGN.md §6 authz family",
+	})
+	// C09: add the behavioural-equivalence entry to the chain check
+	for _, c := range checks {
+		if c.Prop == "C09" {
+			c.Harness = []string{"c01_chain.go", "c16_keyid.go", "authz_gen.go", "c04_authz.go", "authz_rel.go"}
+			c.Entries = append(c.Entries, EntrySpec{Pkg: "biscuit", Func: "VerifC09Equivalent",
+				Quick:    sc("authFacts", 1, "authRule", 1, "authCheck", 1, "blocks", 1, "blkFacts", 1, "blkCheck", 1),
+				Thorough: sc("authFacts", 1, "authRule", 2, "authCheck", 1, "blocks", 1, "blkFacts", 1, "blkRule", 1, "blkCheck", 2, "azFacts", 1, "policies", 2),
+				Covers:   []string{"compared"}})
+		}
+	}
+}
